@@ -341,8 +341,18 @@ func (s *sys) Apply(ei int, hist []int, check bool) {
 		s.seq++
 		b := vaaBytes(emitters[e.E], s.seq)
 		hx := hex.EncodeToString(b)
+		// how many matching VAAs a subscriber that has stopped reading was already holding up (being written +
+		// queued) before this publish: the unchanged server gives every subscriber room for two
+		waiting := -1
 		for _, sb := range s.subs {
 			if sb.active && matches(sb.filters, e.E) {
+				sb.st.mu.Lock()
+				if sb.st.stalled {
+					if n := len(sb.expected) - len(sb.st.got); n > waiting {
+						waiting = n
+					}
+				}
+				sb.st.mu.Unlock()
 				sb.expected = append(sb.expected, hx)
 			}
 		}
@@ -368,7 +378,7 @@ func (s *sys) Apply(ei int, hist []int, check bool) {
 						who = append(who, fmt.Sprint(i))
 					}
 				}
-				s.viol("Publish does not return: parked in "+st+" while a subscriber has stopped reading (delivery to the other subscribers and all later publishes, registrations and removals wait behind it)", "stalled subscribers: "+strings.Join(who, ","), hist)
+				s.viol(fmt.Sprintf("Publish does not return: parked in %s while a subscriber has stopped reading and %d matching VAAs were already waiting for it (delivery to the other subscribers and all later publishes, registrations and removals wait behind it)", st, waiting), "stalled subscribers: "+strings.Join(who, ","), hist)
 			}
 			return
 		}
